@@ -44,5 +44,19 @@ for s in $SEEDS; do
   [ "$e1" = 1 ] || rc=1
   rm -f $log $log.r $log.u
 done
-mv $OUT.tmp $OUT
+# merge: rows of seeds that were not run this time are kept from the existing file
+python3 - "$OUT" "$OUT.tmp" <<'PY'
+import sys,os
+out,tmp=sys.argv[1:3]
+new=open(tmp).read().splitlines()
+rows={l.split('|')[1].strip():l for l in new if l.startswith('| C')}
+if os.path.exists(out):
+    for l in open(out).read().splitlines():
+        if l.startswith('| C'):
+            rows.setdefault(l.split('|')[1].strip(), l)
+head=[l for l in new if not l.startswith('| C')]
+text="\n".join(head+[rows[k] for k in sorted(rows)])+"\n"
+open(out,'w').write(text)
+os.remove(tmp)
+PY
 exit $rc
